@@ -261,15 +261,17 @@ def sweeps(tier, rng):
             try: tags0 = [t for t in TTFont(io.BytesIO(data), lazy=True).reader.keys()]
             except Exception: continue
             if "Silf" in tags0: continue
-            for lazy in (True, None):
-                touched = [t for t in tags0 if t not in ("glyf", "CFF ", "CFF2")] if rng.chance(60) else rng.sample(tags0, rng.randint(1, len(tags0)))
+            # every font is saved once with ALL its layout/colour tables touched (sub-tables inside them still unread when lazy) and once
+            # with a random selection
+            for lazy, allt in ((True, True), (None, True), (True, False), (None, False)):
+                touched = [t for t in tags0 if t not in ("glyf", "CFF ", "CFF2")] if allt else rng.sample(tags0, rng.randint(1, len(tags0)))
                 bad = None
                 try:
                     f = TTFont(io.BytesIO(data), lazy=lazy, recalcTimestamp=False)
                     for t in touched: f[t]
                     b1 = io.BytesIO(); f.save(b1)
                 except Exception:
-                    yield ((label, "nodump", lazy), None); continue
+                    yield ((label, "nodump", lazy, allt), None); continue
                 try:
                     b2 = io.BytesIO(); f.save(b2)
                     if b1.getvalue() != b2.getvalue():
@@ -289,7 +291,7 @@ def sweeps(tier, rng):
                         if ch: bad = "after a save the object model of %r dumps differently from a freshly loaded font" % (ch,)
                 except Exception as e:
                     bad = "second save (or dump after save) raised %r" % (e,)
-                yield ((label, "nodump", lazy), bad)
+                yield ((label, "nodump", lazy, allt), bad)
         # collections: saving must not disturb the member fonts
         for p in corpus.binaries((".ttc",))[:3]:
             try:
